@@ -353,8 +353,186 @@ func runC10(c *core.Ctx) core.Meta {
 		}
 	}
 
+	// ---------------- R10.6 Free releases what Allocate mapped ----------------
+	st6 := c.Rule("R10.6", "Free removes every page of the buffer: allocatePages records, per buffer, exactly the trip count of its page-insertion loop, and Free calls removePage in a loop over that recorded count with a stride of one page starting at the buffer's first address", 4)
+	loopConds := func(fn *ssa.Function, at *ssa.BasicBlock) []string {
+		var out []string
+		for _, b := range fn.Blocks {
+			if len(b.Instrs) == 0 {
+				continue
+			}
+			iff, ok := b.Instrs[len(b.Instrs)-1].(*ssa.If)
+			if !ok || !b.Dominates(at) || len(b.Succs) != 2 {
+				continue
+			}
+			// the branch taken into `at` must be the true edge of a loop header
+			if !(b.Succs[0] == at || b.Succs[0].Dominates(at)) || !reaches(at, b) {
+				continue
+			}
+			pv := prov.Of(iff.Cond)
+			if strings.HasPrefix(pv, "(iter(") {
+				out = append(out, pv)
+			}
+		}
+		return out
+	}
+	recordedField, recordedBound := "", ""
+	if fn := c.MustFunc("R10.6", drvIntPkg, "memoryAllocatorImpl.allocatePages"); fn != nil {
+		c.MarkAnalysed(fn)
+		bound := ""
+		for _, b := range fn.Blocks {
+			for _, in := range b.Instrs {
+				if _, ok := isPageTableCall(in, "Insert"); ok {
+					for _, lc := range loopConds(fn, b) {
+						if m := regexp.MustCompile(`^\(iter\(\{\(@\+1\)\|0\}\)<(.*)\)$`).FindStringSubmatch(lc); m != nil {
+							bound = m[1]
+						}
+					}
+				}
+			}
+		}
+		st6.Instances++
+		st6.Ob(bound != "")
+		if bound == "" {
+			c.ReportAt("R10.6", fn, fn.Pos(), "insert-loop", "the page-insertion loop of allocatePages (for i := 0; i < N; i++ { … pageTable.Insert … }) was not found: the number of pages mapped per buffer cannot be established")
+		}
+		for _, b := range fn.Blocks {
+			for _, in := range b.Instrs {
+				mu, ok := in.(*ssa.MapUpdate)
+				if !ok || bound == "" || prov.Of(mu.Value) != bound {
+					continue
+				}
+				mp := prov.Of(mu.Map)
+				if i := strings.LastIndex(mp, "."); i >= 0 {
+					recordedField, recordedBound = mp[i+1:], bound
+					st6.Sample("allocatePages records %s[%s] = %s (the insertion loop bound)", short(mp), short(prov.Of(mu.Key)), bound)
+					kp := prov.Of(mu.Key)
+					st6.Instances++
+					okKey := strings.HasSuffix(kp, ".nextVAddr")
+					st6.Ob(okKey)
+					if !okKey {
+						c.ReportAt("R10.6", fn, in.Pos(), "record:key", "the page count of a buffer is recorded under "+short(kp)+", not under the buffer's first virtual address (the value Allocate returns)")
+					}
+				}
+			}
+		}
+		st6.Instances++
+		st6.Ob(recordedField != "")
+		if recordedField == "" && bound != "" {
+			c.ReportAt("R10.6", fn, fn.Pos(), "record:count", "allocatePages maps "+bound+" pages per buffer but records that count nowhere: Free cannot know how many pages the buffer has")
+		}
+	}
+	if fn := c.MustFunc("R10.6", drvIntPkg, "memoryAllocatorImpl.Free"); fn != nil {
+		c.MarkAnalysed(fn)
+		calls := 0
+		for _, b := range fn.Blocks {
+			for _, in := range b.Instrs {
+				if !callsFunc(in, pint.Pkg, "memoryAllocatorImpl.removePage") {
+					continue
+				}
+				calls++
+				st6.Instances++
+				arg := prov.Of(core.CallOf(in).Args[1])
+				conds := loopConds(fn, b)
+				okLoop := len(conds) > 0
+				okBound := false
+				for _, lc := range conds {
+					if recordedField != "" && regexp.MustCompile(`^\(iter\(\{\(@\+1\)\|0\}\)<(\{1\|)?[^{}|]*\.`+regexp.QuoteMeta(recordedField)+`\[param:ptr\]\}?\)$`).MatchString(lc) {
+						okBound = true
+					}
+				}
+				okArg := arg == "(param:ptr+(iter({(@+1)|0})*(1<<recv.log2PageSize)))" || arg == "(param:ptr+((1<<recv.log2PageSize)*iter({(@+1)|0})))"
+				st6.Ob(okLoop && okBound && okArg)
+				st6.Sample("Free: removePage(%s) under %v", arg, conds)
+				switch {
+				case !okLoop:
+					c.ReportAt("R10.6", fn, in.Pos(), "free:single-page", "Free calls removePage once, outside any loop: only the first page of a multi-page buffer is unmapped and returned to the device, the others stay mapped and their physical pages are lost")
+				case !okBound:
+					c.ReportAt("R10.6", fn, in.Pos(), "free:bound", fmt.Sprintf("the loop in Free runs under %v, not for i < the page count recorded by allocatePages (%s = %s): Free removes too few or too many pages", conds, recordedField, recordedBound))
+				case !okArg:
+					c.ReportAt("R10.6", fn, in.Pos(), "free:stride", "Free removes the page at "+short(arg)+", not ptr + i*pageSize")
+				}
+			}
+		}
+		st6.Instances++
+		st6.Ob(calls > 0)
+		if calls == 0 {
+			c.ReportAt("R10.6", fn, fn.Pos(), "free:no-remove", "Free does not call removePage")
+		}
+	}
+
+	// ---------------- R10.7 the mirror identifies a page like the page table does ----------------
+	st7 := c.Rule("R10.7", "every map of the allocator that holds pages identifies a page the way the page table does, by process and virtual address: its key carries the PID, or it lives inside the per-process state (each process's cursor starts at the same address, so equal virtual addresses in different processes are the rule, not the exception)", 1)
+	for _, tn := range []string{"memoryAllocatorImpl", "processMemoryState"} {
+		obj := pint.Pkg.Pkg.Scope().Lookup(tn)
+		if obj == nil {
+			c.Report(core.Finding{Rule: "R10.7", Kind: "undecided", Pkg: drvIntPkg, Func: tn, Detail: "anchor", Msg: "type " + tn + " not found"})
+			continue
+		}
+		stt, ok := obj.Type().Underlying().(*types.Struct)
+		if !ok {
+			continue
+		}
+		for i := 0; i < stt.NumFields(); i++ {
+			f := stt.Field(i)
+			mt, ok := f.Type().Underlying().(*types.Map)
+			if !ok || namedTypeName(mt.Elem()) != "vm.Page" {
+				continue
+			}
+			st7.Instances++
+			okKey := tn == "processMemoryState" || typeMentions(mt.Key(), "vm.PID")
+			st7.Ob(okKey)
+			st7.Sample("%s.%s %s: key carries the process: %v", tn, f.Name(), f.Type().String(), okKey)
+			if !okKey {
+				c.Report(core.Finding{Rule: "R10.7", Pkg: drvIntPkg, Func: tn, Detail: "mirror-key:" + f.Name(), Pos: c.Position(f.Pos()),
+					Msg: fmt.Sprintf("%s.%s is keyed by %s only, while pages are identified by (PID, VAddr) and every process allocates from the same first address: the second process's page overwrites the first one's entry, and Free/RemovePage/migration of one process's buffer then operates on the other process's page", tn, f.Name(), mt.Key().String())})
+			}
+		}
+	}
+
 	return core.Meta{Level: "other",
-		Explanation: "Structural clauses of device memory management: a lockset analysis of the allocator (every field access under the embedded mutex, helpers only from lock-holding call sites), pairing of every page-table write with the allocator's vAddr mirror and who-may-write the page table, physical addresses taken only from the device memory state, no container mutated while ranged in the driver packages, page-granular cursor and size arithmetic.",
-		NotDecided:  "invariants over allocate/free/remap histories (disjointness of live physical pages, multi-page Free, cross-process collisions of the vAddr-keyed mirror, buddy-allocator merging): these are state-machine properties beyond structural rules",
+		Explanation: "Structural clauses of device memory management: a lockset analysis of the allocator (every field access under the embedded mutex, helpers only from lock-holding call sites), pairing of every page-table write with the allocator's vAddr mirror and who-may-write the page table, physical addresses taken only from the device memory state, no container mutated while ranged in the driver packages, page-granular cursor and size arithmetic, Free looping over exactly the page count recorded at allocation, and the key shape of the allocator's page maps.",
+		NotDecided:  "invariants over allocate/free/remap histories (disjointness of live physical pages, buddy-allocator merging): these are state-machine properties beyond structural rules",
 		Assumptions: commonAssumptions}
+}
+
+func reaches(from, to *ssa.BasicBlock) bool {
+	seen := map[*ssa.BasicBlock]bool{}
+	var walk func(b *ssa.BasicBlock) bool
+	walk = func(b *ssa.BasicBlock) bool {
+		if b == to {
+			return true
+		}
+		if seen[b] {
+			return false
+		}
+		seen[b] = true
+		for _, s := range b.Succs {
+			if walk(s) {
+				return true
+			}
+		}
+		return false
+	}
+	for _, s := range from.Succs {
+		if walk(s) {
+			return true
+		}
+	}
+	return false
+}
+
+// typeMentions: t is, or is a struct with a field of, a named type called name.
+func typeMentions(t types.Type, name string) bool {
+	if namedTypeName(t) == name {
+		return true
+	}
+	if st, ok := t.Underlying().(*types.Struct); ok {
+		for i := 0; i < st.NumFields(); i++ {
+			if namedTypeName(st.Field(i).Type()) == name {
+				return true
+			}
+		}
+	}
+	return false
 }
